@@ -46,7 +46,10 @@ def prepare(slot):
         sh(f"git checkout -q --detach {head}", cwd=repo)
     os.makedirs(verif, exist_ok=True)
     ex = " ".join(f"--exclude=/{p}" for p in ["target", "target-loom", ".git", "seeded", "benign", "replays", "evidence"] + REWRITE)
-    sh(f"rsync -a --delete {ex} {VERIF}/ {verif}/")
+    # no -t: a file that differs (by checksum) arrives with the mtime of the copy, so cargo always sees it as newer
+    # than the slot's last build (with -a an edit made in /verif while the slot was building kept its older mtime and
+    # the slot went on using a stale binary)
+    sh(f"rsync -rlpD --checksum --delete {ex} {VERIF}/ {verif}/")
     for sub in ("replays", "evidence"):
         os.makedirs(os.path.join(verif, sub), exist_ok=True)
     for p in REWRITE:
